@@ -175,23 +175,29 @@ func findMultiListeners(c *Ctx, rule string) []*multiModel {
 				m.lockClass = m.T + "." + fl.Name()
 			}
 		}
-		// handle type: named struct allocated in Acquire other than T's own helpers, that has a chan struct{} field
-		m.R.Instrs(func(_ *ssa.Function, ins ssa.Instruction) {
-			{
-				if al, ok := ins.(*ssa.Alloc); ok {
-					tn := eng.TypeName(al.Type())
-					if strings.HasPrefix(tn, "service.") && tn != m.T {
-						for _, fl := range c.P.StructFields(tn) {
-							if ch, ok := fl.Type().Underlying().(*types.Chan); ok {
-								if st, ok := ch.Elem().Underlying().(*types.Struct); ok && st.NumFields() == 0 {
-									m.handleT = tn
-								}
-							}
+		// handle type: the struct whose pointer Acquire returns (it has a chan struct{} close channel)
+		for _, r := range eng.Returns(f) {
+			if len(r.Results) == 0 || r.Block().Comment == "recover" {
+				continue
+			}
+			for _, o := range c.P.Origins(r.Results[0], eng.Plain) {
+				al, ok := o.(*ssa.Alloc)
+				if !ok {
+					continue
+				}
+				tn := eng.TypeName(al.Type())
+				if !strings.HasPrefix(tn, "service.") || tn == m.T {
+					continue
+				}
+				for _, fl := range c.P.StructFields(tn) {
+					if ch, ok := fl.Type().Underlying().(*types.Chan); ok {
+						if st, ok := ch.Elem().Underlying().(*types.Struct); ok && st.NumFields() == 0 {
+							m.handleT = tn
 						}
 					}
 				}
 			}
-		})
+		}
 		out = append(out, m)
 	}
 	sort.Slice(out, func(i, j int) bool { return out[i].T < out[j].T })
